@@ -5,7 +5,9 @@
    with the TreeParser, generate writer events, read them by the specification of the
    event protocol; `roundtrip_written` reads them with the faithful model of
    EventHandler.write instead.  `holder_roundtrip c o t` does the same through a typed
-   class with a wildcard field described by `c`.  `is_full o`: every text and tail was
+   class with a wildcard field described by `c`, `reg` being the holder classes the
+   context finds by element qname (the theorems require that no child is one of them:
+   child_ok; nested holders are under correspondence, with computed examples).  `is_full o`: every text and tail was
    fully visible when its `end` event was delivered.  Guards: Model/Generic.v. *)
 From Coq Require Import NArith ZArith List Bool.
 From XV Require Import Base.Str Spec.Infoset Model.Generic
@@ -42,9 +44,9 @@ Print Assumptions C11_writer_agrees_with_spec.
 
 (* ---- typed classes holding a wildcard ----------------------------------------------- *)
 Theorem C11_holder_captures :
-  forall c o t,
-    is_full o -> holder_pre c t = true ->
-    wild_parse c (pump o [] [] t)
+  forall reg c o t,
+    is_full o -> holder_pre reg c t = true ->
+    wild_parse reg c (pump o [] [] t)
     = Ok (mkRobj (if c_amap c then parse_any_attributes (i_nsd t ++ []) (i_atts t) else [])
                  (holder_value c (normalize_content (cut None (i_text t)))
                                (any_kids o (i_nsd t ++ []) [] 0 (i_kids t)))).
@@ -52,38 +54,38 @@ Proof. exact holder_captures. Qed.
 Print Assumptions C11_holder_captures.
 
 Theorem C11_tree_parser_eq_wildcard_capture :
-  forall c o rq rd rx k rl,
+  forall reg c o rq rd rx k rl,
     is_full o -> c_kind c = KSingle -> all_ws rx = true ->
-    holder_pre c (INode rq [] rd rx [k] rl) = true ->
+    holder_pre reg c (INode rq [] rd rx [k] rl) = true ->
     exists v, tree_parse (pump o (rd ++ []) [O] k) = Some v /\
-              wild_parse c (pump o [] [] (INode rq [] rd rx [k] rl)) = Ok (mkRobj [] (WOne v)).
+              wild_parse reg c (pump o [] [] (INode rq [] rd rx [k] rl)) = Ok (mkRobj [] (WOne v)).
 Proof. exact tree_parser_eq_wildcard_capture. Qed.
 Print Assumptions C11_tree_parser_eq_wildcard_capture.
 
 Theorem C11_wildcard_list_captures_tree_parser :
-  forall c o t,
-    is_full o -> c_kind c <> KSingle -> holder_pre c t = true ->
+  forall reg c o t,
+    is_full o -> c_kind c <> KSingle -> holder_pre reg c t = true ->
     exists vs,
       map Some vs = mapi (fun i k => tree_parse (pump o (i_nsd t ++ []) [i] k)) 0 (i_kids t) /\
-      exists pre ra, wild_parse c (pump o [] [] t) = Ok (mkRobj ra (WMany (pre ++ vs))).
+      exists pre ra, wild_parse reg c (pump o [] [] t) = Ok (mkRobj ra (WMany (pre ++ vs))).
 Proof. exact wildcard_list_captures_tree_parser. Qed.
 Print Assumptions C11_wildcard_list_captures_tree_parser.
 
 (* single value, list, mixed list, compound field with a wildcard choice; with or
    without an Attributes map; any namespace constraint (through child_ok) *)
 Theorem C11_holder_roundtrip :
-  forall c o t,
-    is_full o -> holder_pre c t = true ->
-    holder_roundtrip c o t = Some (norm_ws_root (canon [] t)).
+  forall reg c o t,
+    is_full o -> holder_pre reg c t = true ->
+    holder_roundtrip reg c o t = Some (norm_ws_root (canon [] t)).
 Proof. exact holder_roundtrip_ok. Qed.
 Print Assumptions C11_holder_roundtrip.
 
 (* the same through the faithful model of EventHandler.write; holder_pre_w = holder_pre
    and the two writer clauses (xsi:nil, datatype Clark values) *)
 Theorem C11_holder_roundtrip_written :
-  forall c o t,
-    is_full o -> holder_pre_w c t = true ->
-    holder_written c o t = Some (norm_ws_root (canon [] t)).
+  forall reg c o t,
+    is_full o -> holder_pre_w reg c t = true ->
+    holder_written reg c o t = Some (norm_ws_root (canon [] t)).
 Proof. exact holder_written_ok. Qed.
 Print Assumptions C11_holder_roundtrip_written.
 
@@ -155,32 +157,54 @@ Print Assumptions C11_python_space_refuted.
 Theorem C11_holder_xsi_primitive_refuted :
   exists t, g_wf [] t && guard_any [] t && guard_write [] t = true /\ g_first_level [] t = false /\
             roundtrip_spec full_oracle [] [] t = expect t /\
-            holder_roundtrip cfg_single full_oracle t <> expect_root t /\
-            holder_roundtrip cfg_list full_oracle t <> expect_root t /\
-            holder_roundtrip cfg_mixed full_oracle t <> expect_root t.
+            holder_roundtrip reg_w cfg_single full_oracle t <> expect_root t /\
+            holder_roundtrip reg_w cfg_list full_oracle t <> expect_root t /\
+            holder_roundtrip reg_w cfg_mixed full_oracle t <> expect_root t.
 Proof. exact holder_xsi_primitive_refuted. Qed.
 Print Assumptions C11_holder_xsi_primitive_refuted.
 
 Theorem C11_holder_xsi_primitive_choice_refuted :
   exists t, g_wf [] t && guard_any [] t && guard_write [] t = true /\
-            holder_roundtrip cfg_choice full_oracle t <> expect_root t.
+            holder_roundtrip reg_w cfg_choice full_oracle t <> expect_root t.
 Proof. exact holder_xsi_primitive_choice_refuted. Qed.
 Print Assumptions C11_holder_xsi_primitive_choice_refuted.
 
 Theorem C11_holder_xsi_primitive_child_refuted :
   exists t, g_wf [] t && guard_any [] t && guard_write [] t = true /\
             roundtrip_spec full_oracle [] [] t = expect t /\
-            wild_parse cfg_list (pump full_oracle [] [] t) = Err EContext.
+            wild_parse reg_w cfg_list (pump full_oracle [] [] t) = Err EContext.
 Proof. exact holder_xsi_primitive_child_refuted. Qed.
 Print Assumptions C11_holder_xsi_primitive_child_refuted.
 
 Theorem C11_tree_parser_ne_wildcard_refuted :
   exists rd k v w,
     tree_parse (pump full_oracle (rd ++ []) [O] k) = Some v /\
-    wild_parse cfg_single (pump full_oracle [] [] (INode [82%N] [] rd [] [k] [])) = Ok (mkRobj [] (WOne w)) /\
+    wild_parse reg_w cfg_single (pump full_oracle [] [] (INode [82%N] [] rd [] [k] [])) = Ok (mkRobj [] (WOne w)) /\
     v <> w.
 Proof. exact tree_parser_ne_wildcard_refuted. Qed.
 Print Assumptions C11_tree_parser_ne_wildcard_refuted.
+
+(* holder classes found by qname below another holder (reg_w: list, mixed, single,
+   list + Attributes map) *)
+Theorem C11_typed_child_tail_refuted :
+  exists t, g_wf [] t && guard_any [] t && guard_write [] t = true /\
+            holder_written reg_w cfg_mixed full_oracle t = Some (canon [] t) /\
+            wild_parse reg_w cfg_list (pump full_oracle [] [] t) = Err ETypeError /\
+            wild_parse reg_w cfg_single (pump full_oracle [] [] t) = Err ETypeError.
+Proof. exact typed_child_tail_refuted. Qed.
+Print Assumptions C11_typed_child_tail_refuted.
+
+Theorem C11_single_holder_tail_refuted :
+  exists t, g_wf [] t && guard_any [] t && guard_write [] t = true /\
+            holder_roundtrip reg_w cfg_mixed full_oracle t <> Some (canon [] t) /\
+            holder_written reg_w cfg_mixed full_oracle t <> Some (canon [] t).
+Proof. exact single_holder_tail_refuted. Qed.
+Print Assumptions C11_single_holder_tail_refuted.
+
+Example C11_nested_holders_computed :
+  holder_written reg_w cfg_mixed full_oracle w_nested_ok = Some (canon [] w_nested_ok).
+Proof. exact nested_holders_computed. Qed.
+Print Assumptions C11_nested_holders_computed.
 
 (* ---- the guards are not vacuous ------------------------------------------------------------- *)
 Example C11_guards_nonvacuous :
@@ -190,9 +214,9 @@ Proof. exact guards_nonvacuous. Qed.
 Print Assumptions C11_guards_nonvacuous.
 
 Example C11_holder_pre_nonvacuous :
-  holder_pre cfg_single w_ok_holder = true /\ holder_pre cfg_list w_ok_holder = true /\
-  holder_pre cfg_mixed w_ok_holder = true /\ holder_pre cfg_choice w_ok_choice = true /\
-  holder_pre cfg_list_amap w_ok_amap = true.
+  holder_pre reg_w cfg_single w_ok_holder = true /\ holder_pre reg_w cfg_list w_ok_holder = true /\
+  holder_pre reg_w cfg_mixed w_ok_holder = true /\ holder_pre reg_w cfg_choice w_ok_choice = true /\
+  holder_pre reg_w cfg_list_amap w_ok_amap = true.
 Proof. exact holder_pre_nonvacuous. Qed.
 Print Assumptions C11_holder_pre_nonvacuous.
 
@@ -203,8 +227,8 @@ Proof. exact match_namespace_guard_nonvacuous. Qed.
 Print Assumptions C11_match_namespace_guard_nonvacuous.
 
 Example C11_holder_pre_w_nonvacuous :
-  holder_pre_w cfg_single w_ok_holder = true /\ holder_pre_w cfg_list w_ok_holder = true /\
-  holder_pre_w cfg_mixed w_ok_holder = true /\ holder_pre_w cfg_choice w_ok_choice = true /\
-  holder_pre_w cfg_list_amap w_ok_amap = true.
+  holder_pre_w reg_w cfg_single w_ok_holder = true /\ holder_pre_w reg_w cfg_list w_ok_holder = true /\
+  holder_pre_w reg_w cfg_mixed w_ok_holder = true /\ holder_pre_w reg_w cfg_choice w_ok_choice = true /\
+  holder_pre_w reg_w cfg_list_amap w_ok_amap = true.
 Proof. exact holder_pre_w_nonvacuous. Qed.
 Print Assumptions C11_holder_pre_w_nonvacuous.
